@@ -224,7 +224,7 @@ fn main() {
     //     (n, vmax, cap on exhaustive v-assignments, seeded assignments, keep 1 D-set in `stride`)
     let plan2: &[(usize, usize, f64, usize, usize)] = if th {
         &[(1, 6, 40.0, 6, 1), (2, 6, 40.0, 6, 1), (3, 6, 40.0, 6, 1), (4, 6, 40.0, 6, 1), (5, 6, 40.0, 6, 1),
-          (6, 6, 0.0, 3, 1), (7, 6, 0.0, 1, 1)]
+          (6, 6, 0.0, 3, 1), (7, 6, 0.0, 1, 2)]
     } else {
         &[(1, 3, 30.0, 12, 1), (2, 3, 30.0, 12, 1), (3, 3, 30.0, 12, 1), (4, 3, 30.0, 3, 1), (5, 3, 30.0, 3, 1),
           (6, 4, 0.0, 1, 1), (7, 4, 0.0, 1, 4)]
